@@ -49,6 +49,7 @@ import Ctrmml.Proofs.LinkRead
 import Ctrmml.Proofs.LinkStored
 import Ctrmml.Proofs.LinkResolve
 import Ctrmml.Proofs.LinkOrder
+import Ctrmml.Proofs.LinkBank
 import Ctrmml.Spec.Link
 namespace Ctrmml.Linker
 open Ctrmml
@@ -714,7 +715,8 @@ theorem C10_song_resolves_partial (m bk : Nat) (hm : 0 < m) (hm24 : m < 16777216
     cases c with
     | data addr flag bytes => rfl
     | pcm addr hdr bytes => exact this
-  exact songOk_of l bank hseq hnd hbl i sd hs s (by rw [hdata, r2]) (by omega) hA r5 r6
+  obtain ⟨o, es, h, _⟩ := songOk_of l bank hseq hnd hbl i sd hs s (by rw [hdata, r2]) (by omega) hA r5 r6
+  exact ⟨_, h⟩
 
 /-- the hypotheses are met by the two-file history above (song 2 is file B, three slots, two of them PCM) -/
 example : ∃ bank, getSeqData exLinked = .ok bank ∧ bank.length < 4294967296 ∧ exLinked.songs.length = 2 := by
@@ -777,6 +779,56 @@ example : ∃ songs : List LinkSpec.SongIn, [(([97] : Bytes), exFileA), ([98], e
     · rw [h] at hsl
       have := List.all_eq_true.mp h0.2 sl hsl
       exact beq_iff_eq.mp this
+
+/-! ### the resolver accepts the linked banks -/
+
+/-- The bank half of `C10_full_statement` (PARTIAL — extra hypotheses beyond those of the full statement:
+`hbl`, the linked sequence bank is shorter than 4 GiB, the range of its 32-bit offsets; `hcnt`, fewer than
+65536 songs, the range of the 16-bit song count in the bank header.  `hstart`, PCM start offsets 0, is
+D11 and is a hypothesis of the full statement too).  For every list of files the spec reader accepts,
+linked by `MDSDRV_Linker()` without error, with a successful `get_seq_data`: the spec's executable
+resolver `LinkSpec.resolveBank` — bank header (magic, version, song count, end of the sequence area),
+every song in group then input order through the table (sequence bytes unchanged outside the pointer
+slots, every slot's pointer word with its flag bit, data entry byte-identical, PCM header with pitch code
+and size, PCM region in `get_pcm_data` equal to the sample), songs in increasing non-overlapping spans
+inside the sequence area, data entries inside the data area in front of the first song, identical data
+stored once and different data never merged, wave-table offset inside the bank — returns `.ok ()`. -/
+theorem C10_full_bank_partial (files : List (Bytes × Bytes)) (songs : List LinkSpec.SongIn) (l : Linker) (bank : Bytes)
+    (hparse : files.map (fun f => LinkSpec.parseMds f.2) = songs.map some)
+    (hstart : ∀ s ∈ songs, ∀ sl ∈ s.slots, sl.start = 0)
+    (hrun : runOps (files.map fun f => Op.add f.1 f.2) Linker.new = .ok l)
+    (hseq : getSeqData l = .ok bank) (hbl : bank.length < 4294967296) (hcnt : songs.length < 65536) :
+    LinkSpec.resolveBank songs bank (getPcmData l) = .ok () := by
+  rw [Linker.new_eq] at hrun
+  exact resolveBank_ok Tables.mds_linkWaveRom Tables.mds_linkWaveBank (by decide) (by decide) (by decide)
+    files songs l bank hparse hstart hrun hseq hbl hcnt
+
+/-- the same for any fresh linker (any rom below 2^24 bytes, any bank size); met by the two example files
+on the 64-byte rom: `resolveBank` evaluates to ok on that linked output -/
+theorem C10_full_bank_fresh_partial (m bk : Nat) (hm : 0 < m) (hm24 : m < 16777216) (hb : bk < 1073741824)
+    (files : List (Bytes × Bytes)) (songs : List LinkSpec.SongIn) (l : Linker) (bank : Bytes)
+    (hparse : files.map (fun f => LinkSpec.parseMds f.2) = songs.map some)
+    (hstart : ∀ s ∈ songs, ∀ sl ∈ s.slots, sl.start = 0)
+    (hrun : runOps (files.map fun f => Op.add f.1 f.2) (Linker.fresh m bk) = .ok l)
+    (hseq : getSeqData l = .ok bank) (hbl : bank.length < 4294967296) (hcnt : songs.length < 65536) :
+    LinkSpec.resolveBank songs bank (getPcmData l) = .ok () :=
+  resolveBank_ok m bk hm hm24 hb files songs l bank hparse hstart hrun hseq hbl hcnt
+
+def exFiles : List (Bytes × Bytes) := [([97], exFileA), ([98], exFileB)]
+def exL2 : Linker := okOr (runOps (exFiles.map fun f => Op.add f.1 f.2) (Linker.fresh 64 16))
+def exBank2 : Bytes := match getSeqData exL2 with
+  | .ok b => b
+  | .error _ => []
+theorem exBank2_ok : getSeqData exL2 = .ok exBank2 := by
+  have h : (match getSeqData exL2 with | .ok _ => true | .error _ => false) = true := by decide +kernel
+  unfold exBank2
+  generalize getSeqData exL2 = g at h ⊢
+  cases g with
+  | ok b => rfl
+  | error e => cases h
+
+example : runOps (exFiles.map fun f => Op.add f.1 f.2) (Linker.fresh 64 16) = .ok exL2 ∧ getSeqData exL2 = .ok exBank2 ∧
+    exBank2.length < 4294967296 := ⟨ok_of_isOk _ (by decide +kernel), exBank2_ok, by decide +kernel⟩
 
 /-- The full statement of C10 over the model, kept for the record: for every list of well-formed
 MDS files (as read by the spec's own reader, PCM start offsets 0) that the linker accepts, the
